@@ -2,7 +2,7 @@
 
 spec   : spec/SeedDumpContract.tla (clauses D1 D2 S1 S2 K0-K6 R0-R4 P1 D5 L0, sources in its header),
          spec/SeedDump.tla (design: the main loop, one action per await point, 11 deviation constants)
-MC     : MC_SeedDump_{a3,b,c3,d,t}(+a,c thorough); negative controls MC_SeedDump_dev*; MC_SeedDump_sim (simulation)
+MC     : MC_SeedDump_{a3,b,c3,d,t,v}(+a,c thorough); negative controls MC_SeedDump_dev*; MC_SeedDump_sim (simulation)
 binding: the REAL SASeedsDumper.run() (setup, main, teardown) with a real ECU client over the full tcp-lines
          stack in memory (harness/c10_stack.serving) against a scripted gallia UDSServer subclass
          (harness/x07_run.SeedEcu), virtual time, artifacts directory in a mkdtemp(); the seeds file is read back;
@@ -25,7 +25,7 @@ from harness.c10_stack import setup_logging_once
 from harness.common import Machinery, Report
 from harness.x07_run import run_case
 
-MC_QUICK = ["a3", "b", "c3", "d", "t"]
+MC_QUICK = ["a3", "b", "c3", "d", "t", "v"]
 MC_THOROUGH = ["a", "c"]
 NEG = {
     "devNoSleepOnError": {"P1_Sleep"}, "devSaveDuringDetect": {"D1_File"}, "devNoReenter": {"R3_Reenter"},
@@ -41,7 +41,7 @@ JAVA_ENV = {"JAVA_TOOL_OPTIONS": "-Xss64m"}
 
 # ------------------------------------------------------------------ 1. design layer
 def _mc(rep: Report, tier: str) -> None:
-    jobs: list[tuple[str, set[str] | None, bool]] = [(c, None, c == "d") for c in MC_QUICK]
+    jobs: list[tuple[str, set[str] | None, bool]] = [(c, None, c == "v") for c in MC_QUICK]
     if tier == "thorough":
         jobs += [(c, None, False) for c in MC_THOROUGH]
     jobs += [(c, want, False) for c, want in NEG.items()]
@@ -313,7 +313,7 @@ def run(tier: str, seed: int) -> Report:
         f"same seed again, positive + session loss, requiredTimeDelayNotExpired, exceededNumberOfAttempts, silence, "
         f"mismatching positive answer) x {len(cs.enum_cfgs(tier))} option sets; seed lengths 0..{39 if tier == 'quick' else 129}, "
         "255, 300, 1000; interrupt instants on a 0.5/0.25 s grid; everything else seeded samples")
-    rep.extra["design_layer_not_vacuous"] = "every action of SeedDump is taken in MC_SeedDump_d (TLC -coverage)"
+    rep.extra["design_layer_not_vacuous"] = "every action of SeedDump is taken in MC_SeedDump_v (TLC -coverage)"
     # ---- 5. binding self-tests
     _selftest(rep, traces, uniq, verdicts)
     return rep
